@@ -190,8 +190,15 @@ func runC08(c *Ctx) {
 					}
 				}
 				if cc, ok := in.(ssa.CallInstruction); ok {
-					if cal := calleeOf(cc); cal != nil && relPkg(funcPkgPath(cal)) == pkgCapPolicy && cal.Signature.Results().Len() == 1 && len(cc.Common().Args) >= 4 {
-						combinator = cal
+					// the combinator: the function of the package that is handed the list of checks (method or plain function)
+					if cal := calleeOf(cc); cal != nil && relPkg(funcPkgPath(cal)) == pkgCapPolicy && cal.Signature.Results().Len() == 1 {
+						for _, a := range cc.Common().Args {
+							if sl, isSl := a.Type().Underlying().(*types.Slice); isSl {
+								if _, isFn := sl.Elem().Underlying().(*types.Signature); isFn {
+									combinator = cal
+								}
+							}
+						}
 					}
 				}
 			}
